@@ -118,6 +118,13 @@ class SkelTr:
                 return f"{lname(a)}.{f.attr}"
             if isinstance(f.value, ast.Name) and f.value.id in self.spec.get("modules", ()):
                 return f"{f.value.id}.{f.attr}"
+            # `module.Class.method(...)`: the dotted name
+            parts, cur = [f.attr], f.value
+            while isinstance(cur, ast.Attribute):
+                parts.append(cur.attr)
+                cur = cur.value
+            if isinstance(cur, ast.Name) and cur.id in self.spec.get("modules", ()) and len(parts) > 1:
+                return ".".join([cur.id] + parts[::-1])
         a = self.self_attr(f)
         if a is not None and a in self.spec.get("callables", ()):
             return lname(a)
@@ -137,6 +144,15 @@ class SkelTr:
             if isinstance(e.op, ast.Or):
                 return f"(← (if {a} then pure true else (do pure {b})))"
             return f"(← (if {a} then (do pure {b}) else pure false))"
+        if isinstance(e, ast.Compare) and len(e.ops) == 1 and isinstance(e.comparators[0], ast.Constant) \
+                and isinstance(e.comparators[0].value, int) and not isinstance(e.comparators[0].value, bool) \
+                and isinstance(e.left, ast.Call) and isinstance(e.left.func, ast.Name) and e.left.func.id == "len" \
+                and len(e.left.args) == 1 and self.self_attr(e.left.args[0]) in self.spec.get("len_fields", {}):
+            # `len(self._x) <op> k`: the length is a natural number given from outside
+            op = {ast.Eq: "=", ast.NotEq: "≠", ast.Lt: "<", ast.LtE: "≤", ast.Gt: ">", ast.GtE: "≥"}.get(type(e.ops[0]))
+            if op is None:
+                raise Untranslatable(ast.unparse(e))
+            return f"decide (cfg.{self.spec['len_fields'][self.self_attr(e.left.args[0])]} {op} {e.comparators[0].value})"
         if isinstance(e, ast.Compare) and len(e.ops) == 1 and isinstance(e.comparators[0], ast.Constant) \
                 and e.comparators[0].value is None and isinstance(e.ops[0], (ast.Is, ast.IsNot)):
             a = self.self_attr(e.left)
@@ -236,6 +252,16 @@ class SkelTr:
             a = self.self_attr(t)
             if a is not None and a in self.spec.get("bool_fields", {}):
                 return [f"{ind}modify fun w => {{ w with {self.spec['bool_fields'][a]} := {self.bexpr(s.value, locs)} }}"]
+            if isinstance(t, ast.Name) and isinstance(s.value, ast.IfExp):
+                # `x = f(...) if c else const`: the call happens on one side only
+                def side(v: ast.expr) -> str:
+                    n = self.collab_call(v)
+                    if n is not None:
+                        return f"call \"{n}\""
+                    if isinstance(v, ast.Constant):
+                        return "pure ()"
+                    raise Untranslatable(f"unsupported operand `{ast.unparse(v)}`")
+                return [f"{ind}if {self.bexpr(s.value.test, locs)} then {side(s.value.body)} else {side(s.value.orelse)}"]
             if isinstance(t, ast.Name):
                 n = self.collab_call(s.value)
                 if n is not None and t.id in self.cond_names:
@@ -413,7 +439,8 @@ class SkelTr:
             visit(n)
         cfg = "structure Cfg where\n" + "\n".join(
             [f"  {f} : Bool" for f in self.spec.get("flags", {}).values()] +
-            [f"  {f} : Nat" for f in self.spec.get("nat_fields", {}).values()]) + "\n"
+            [f"  {f} : Nat" for f in self.spec.get("nat_fields", {}).values()] +
+            [f"  {f} : Nat" for f in self.spec.get("len_fields", {}).values()]) + "\n"
         return cfg + "\n" + "\n\n".join(parts[n] for n in order) + "\n"
 
 
@@ -440,6 +467,14 @@ def hooks_spec(rel: str, cls: str, comp: str) -> dict:
                        ("thread/thread_control.py", "ThreadEventMixin")],
                 collaborators={comp, "_thread_status"})
 
+
+STATS_SPEC = dict(
+    rel="thread/threads/inference.py", cls="InferenceThread",
+    bases=[("thread/threads/base.py", "BackgroundThread"), ("thread/threads/base.py", "Thread"),
+           ("thread/thread_control.py", "ThreadEventMixin")],
+    collaborators={"_tick_times"}, modules={"statistics"}, skip={"_logger"},
+    len_fields={"_tick_times": "nTimes"},
+)
 
 HANDLER_SPEC = dict(
     rel="thread/thread_control.py", cls="ControllerCommandHandler", bases=[],
